@@ -248,18 +248,20 @@ def let_initializer(body, var):
 
 def braced_expr_at(body, anchor):
     pat = [t for k, t, p in extract.tokenize(anchor) if k not in ("ws", "comment")]
-    if "{" not in pat:
-        raise extract.AnchorLost("exprat anchor must contain the opening `{`")
+    opener = next((t for t in pat if t in ("{", "(")), None)
+    if opener is None:
+        raise extract.AnchorLost("exprat anchor must contain the opening `{` or `(`")
+    closer = "}" if opener == "{" else ")"
     toks = [(k, t, p) for k, t, p in extract.tokenize(body) if k not in ("ws", "comment")]
     hits = [i for i in range(len(toks) - len(pat) + 1) if all(toks[i + j][1] == pat[j] for j in range(len(pat)))]
     if len(hits) != 1:
         raise extract.AnchorLost(f"anchor `{anchor}` occurs {len(hits)} times (expected once)")
     a = toks[hits[0]][2]
     depth = 0
-    for k, t, p in toks[hits[0] + pat.index("{"):]:
-        if k == "punct" and t == "{":
+    for k, t, p in toks[hits[0] + pat.index(opener):]:
+        if k == "punct" and t == opener:
             depth += 1
-        elif k == "punct" and t == "}":
+        elif k == "punct" and t == closer:
             depth -= 1
             if depth == 0:
                 return body[a:p + 1], body.count("\n", 0, a)
